@@ -51,8 +51,9 @@ class Run:
 class P(Process):
     """Stub process: accumulates d into x_<name> and z, tags y_<name>."""
 
-    def __init__(self, run, name, mode, cond, B, dlo=-3, dhi=3):
-        super().__init__({'name': name})
+    def __init__(self, run, name, mode, cond, B, dlo=-3, dhi=3,
+                 parallel=False):
+        super().__init__({'name': name, '_parallel': parallel})
         self.run = run
         self.mode = mode
         self.cond = cond
@@ -145,11 +146,19 @@ def build(ctx, cfg):
     N = cfg['N']
     B = cfg['B']
     names = ['p%d' % i for i in range(N)]
+    if cfg.get('parallel'):
+        # serial or parallel execution of each process (transport stub)
+        from vsym import mpstub
+        mpstub.install()
+        mpstub.reset()
     for i, n in enumerate(names):
         cond = cfg['cond']
         if cond == 'mixed':        # only the last process has a condition
             cond = 'fresh' if i == len(names) - 1 else 'none'
-        run.procs[n] = P(run, n, cfg['mode'], cond, B)
+        par = bool(cfg.get('parallel')) and ctx.flag('par')
+        run.procs[n] = P(run, n, cfg['mode'], cond, B, parallel=par)
+        if par:
+            ctx.goal('a process runs in a worker')
     run.sink = stubs.reset_sink()
     kwargs = {}
     if cfg.get('precision') is not None:
@@ -210,6 +219,14 @@ def drive(ctx, cfg, run, on_call=None):
 def monotone_expr(run):
     gs = [g for _, g in run.clock]
     return AND([b >= a for a, b in zip(gs, gs[1:])])
+
+
+def progress_expr(run):
+    """C03.progress: every scheduler pass strictly advances the clock."""
+    out = []
+    for ps in run.passes:
+        out += [b > a for a, b in zip(ps, ps[1:])]
+    return AND(out)
 
 
 def describe(run, m):
